@@ -8,6 +8,56 @@ open Verif.Spec.JsSyntax Verif.Spec.JsSem Verif.Model.JsAst Verif.Model.JsOpt
 
 variable {H : Host}
 
+/-! ## structural induction over the nested syntax -/
+
+mutual
+theorem E.ind {P : E → Prop}
+    (hvar : ∀ n, P (.var n)) (hlit : ∀ l, P (.lit l))
+    (hun : ∀ op x, P x → P (.unary op x)) (hbin : ∀ op x y, P x → P y → P (.bin op x y))
+    (hcond : ∀ c x y, P c → P x → P y → P (.cond c x y))
+    (hcomma : ∀ l, (∀ a ∈ l, P a) → P (.comma l))
+    (hcall : ∀ f args, P f → (∀ a ∈ args, P a) → P (.call f args))
+    (hdot : ∀ x n, P x → P (.dot x n)) (hindex : ∀ x y, P x → P y → P (.index x y))
+    (hgroup : ∀ x, P x → P (.group x)) : ∀ e : E, P e
+  | .var n => hvar n
+  | .lit l => hlit l
+  | .unary op x => hun op x (E.ind hvar hlit hun hbin hcond hcomma hcall hdot hindex hgroup x)
+  | .bin op x y => hbin op x y (E.ind hvar hlit hun hbin hcond hcomma hcall hdot hindex hgroup x)
+      (E.ind hvar hlit hun hbin hcond hcomma hcall hdot hindex hgroup y)
+  | .cond c x y => hcond c x y (E.ind hvar hlit hun hbin hcond hcomma hcall hdot hindex hgroup c)
+      (E.ind hvar hlit hun hbin hcond hcomma hcall hdot hindex hgroup x)
+      (E.ind hvar hlit hun hbin hcond hcomma hcall hdot hindex hgroup y)
+  | .comma l => hcomma l (E.indL hvar hlit hun hbin hcond hcomma hcall hdot hindex hgroup l)
+  | .call f args => hcall f args (E.ind hvar hlit hun hbin hcond hcomma hcall hdot hindex hgroup f)
+      (E.indL hvar hlit hun hbin hcond hcomma hcall hdot hindex hgroup args)
+  | .dot x n => hdot x n (E.ind hvar hlit hun hbin hcond hcomma hcall hdot hindex hgroup x)
+  | .index x y => hindex x y (E.ind hvar hlit hun hbin hcond hcomma hcall hdot hindex hgroup x)
+      (E.ind hvar hlit hun hbin hcond hcomma hcall hdot hindex hgroup y)
+  | .group x => hgroup x (E.ind hvar hlit hun hbin hcond hcomma hcall hdot hindex hgroup x)
+theorem E.indL {P : E → Prop}
+    (hvar : ∀ n, P (.var n)) (hlit : ∀ l, P (.lit l))
+    (hun : ∀ op x, P x → P (.unary op x)) (hbin : ∀ op x y, P x → P y → P (.bin op x y))
+    (hcond : ∀ c x y, P c → P x → P y → P (.cond c x y))
+    (hcomma : ∀ l, (∀ a ∈ l, P a) → P (.comma l))
+    (hcall : ∀ f args, P f → (∀ a ∈ args, P a) → P (.call f args))
+    (hdot : ∀ x n, P x → P (.dot x n)) (hindex : ∀ x y, P x → P y → P (.index x y))
+    (hgroup : ∀ x, P x → P (.group x)) : ∀ l : List E, ∀ a ∈ l, P a
+  | [] => fun _ h => by cases h
+  | b :: t => fun a h => by
+    cases h with
+    | head => exact E.ind hvar hlit hun hbin hcond hcomma hcall hdot hindex hgroup b
+    | tail _ h' => exact E.indL hvar hlit hun hbin hcond hcomma hcall hdot hindex hgroup t a h'
+end
+
+theorem snoc_of_getLast? {α : Type} (l : List α) (a : α) (h : l.getLast? = some a) : l = l.dropLast ++ [a] := by
+  have hne : l ≠ [] := by intro h0; simp [h0] at h
+  have h1 := List.dropLast_concat_getLast hne
+  have h2 : l.getLast? = some (l.getLast hne) := List.getLast?_eq_some_getLast hne
+  rw [h] at h2
+  injection h2 with h2
+  rw [h2]
+  exact h1.symm
+
 /-! ## monad laws -/
 
 @[simp] theorem retM_bind {α β : Type} (a : α) (f : α → M β) : bindM (retM a) f = f a := by
@@ -16,14 +66,14 @@ variable {H : Host}
 @[simp] theorem bind_retM {α : Type} (m : M α) : bindM m retM = m := by
   funext s; simp only [bindM, retM]; cases m s <;> rfl
 
-@[simp] theorem bind_assoc {α β γ : Type} (m : M α) (f : α → M β) (g : β → M γ) :
+@[simp] theorem bindM_assoc {α β γ : Type} (m : M α) (f : α → M β) (g : β → M γ) :
     bindM (bindM m f) g = bindM m (fun a => bindM (f a) g) := by
   funext s; simp only [bindM]; cases m s <;> rfl
 
 @[simp] theorem throw_bind {α β : Type} (v : Val) (f : α → M β) : bindM (throwV v) f = throwV v := by
   funext s; simp [bindM, throwV]
 
-theorem bind_congr {α β : Type} (m : M α) (f g : α → M β) (h : ∀ a, f a = g a) : bindM m f = bindM m g := by
+theorem bindM_congr {α β : Type} (m : M α) (f g : α → M β) (h : ∀ a, f a = g a) : bindM m f = bindM m g := by
   have : f = g := funext h
   rw [this]
 
@@ -31,6 +81,15 @@ theorem bind_congr {α β : Type} (m : M α) (f g : α → M β) (h : ∀ a, f a
 theorem bind_ite {α β : Type} (c : Bool) (m n : M α) (f : α → M β) :
     bindM (if c then m else n) f = if c then bindM m f else bindM n f := by
   cases c <;> rfl
+
+/-! ## values -/
+
+@[simp] theorem truthy_bool (b : Bool) : truthy (.bool b) = b := rfl
+@[simp] theorem truthy_undef : truthy .undef = false := rfl
+@[simp] theorem truthy_null : truthy .null = false := rfl
+@[simp] theorem isNullish_undef : isNullish .undef = true := rfl
+@[simp] theorem isNullish_null : isNullish .null = true := rfl
+@[simp] theorem isNullish_bool (b : Bool) : isNullish (.bool b) = false := rfl
 
 /-! ## evaluation equations -/
 
@@ -42,18 +101,18 @@ theorem bind_ite {α β : Type} (c : Bool) (m n : M α) (f : α → M β) :
 @[simp] theorem eval_false : eval H (.lit .false) = retM (.bool false) := by simp [eval]
 @[simp] theorem eval_null : eval H (.lit .null) = retM .null := by simp [eval]
 @[simp] theorem eval_not (x : E) :
-    eval H (.unary .not x) = bindM (eval H x) (fun v => retM (.bool (!toBool v))) := by simp [eval]
+    eval H (.unary .not x) = bindM (eval H x) (fun v => retM (.bool (!truthy v))) := by simp [eval]
 @[simp] theorem eval_void (x : E) : eval H (.unary .void x) = bindM (eval H x) (fun _ => retM .undef) := by
   simp [eval]
 @[simp] theorem eval_land (x y : E) :
-    eval H (.bin .land x y) = bindM (eval H x) (fun v => if toBool v then eval H y else retM v) := by simp [eval]
+    eval H (.bin .land x y) = bindM (eval H x) (fun v => if truthy v then eval H y else retM v) := by simp [eval]
 @[simp] theorem eval_lor (x y : E) :
-    eval H (.bin .lor x y) = bindM (eval H x) (fun v => if toBool v then retM v else eval H y) := by simp [eval]
+    eval H (.bin .lor x y) = bindM (eval H x) (fun v => if truthy v then retM v else eval H y) := by simp [eval]
 @[simp] theorem eval_nullish (x y : E) :
     eval H (.bin .nullish x y) = bindM (eval H x) (fun v => if isNullish v then eval H y else retM v) := by
   simp [eval]
 @[simp] theorem eval_cond (c x y : E) :
-    eval H (.cond c x y) = bindM (eval H c) (fun v => if toBool v then eval H x else eval H y) := by simp [eval]
+    eval H (.cond c x y) = bindM (eval H c) (fun v => if truthy v then eval H x else eval H y) := by simp [eval]
 @[simp] theorem eval_comma (l : List E) :
     eval H (.comma l) = bindM (evalL H l) (fun vs => retM (vs.getLast?.getD .undef)) := by simp [eval]
 @[simp] theorem eval_call (f : E) (args : List E) :
